@@ -3,7 +3,7 @@ CONSTANTS
   BaseKeys = {"s1", "s2", "s3"}
   BlindKeys = {"b1", "b2", "b3", "b4", "lead0", "geN", "one"}
   Contexts = {"", "ctxA", "ctxB", "long"}
-  Digests = {"d0", "d1", "d2", "dlong"}
+  Digests = {"d0", "d1", "d2", "dlong", "dlong0", "dlongf"}
   MaxDepth = 100
   Deterministic = FALSE
   Enforce = {"quiet", "known-input", "op-ok", "key-identity", "matches-reference", "signature-identity", "fork-verdict", "std-verdict", "unknown-event"}
